@@ -37,6 +37,7 @@ class TLCResult:
         self.cmd = ""
         self.finished = False
         self.univ = None
+        self.res = {}
 
     def ok(self):
         return self.violation is None
@@ -46,6 +47,7 @@ _EMIT_RE = re.compile(r'^<<"EMIT", "(.*)">>$')
 _ACCEPT_RE = re.compile(r'^<<"ACCEPT", (\d+)>>$')
 _NOTE_RE = re.compile(r'^<<"NOTE", (.*)>>$')
 _UNIV_RE = re.compile(r'^<<"UNIV", "(.*)">>$')
+_RES_RE = re.compile(r'^<<"RES", (\d+), <<(.*)>>>>$')
 
 
 def _unescape_tla_string(s):
@@ -149,7 +151,10 @@ def _parse(out, res):
             else:
                 m = _ACCEPT_RE.match(ln)
                 mu = _UNIV_RE.match(ln)
-                if mu:
+                mr = _RES_RE.match(ln)
+                if mr:
+                    res.res[int(mr.group(1))] = re.findall(r'"([^"]*)"', mr.group(2))
+                elif mu:
                     res.univ = json.loads(_unescape_tla_string(mu.group(1)))
                 elif m:
                     res.accepts.add(int(m.group(1)))
@@ -157,7 +162,7 @@ def _parse(out, res):
                     m = _NOTE_RE.match(ln)
                     if m:
                         res.notes.append(m.group(1))
-                    elif '"EMIT"' in ln or '"ACCEPT"' in ln:
+                    elif '"EMIT"' in ln or '"ACCEPT"' in ln or '"RES"' in ln:
                         bad += 1
         elif ln.startswith("Error:"):
             if res.violation is None:
